@@ -173,7 +173,8 @@ pub fn item_spec(inv: bool) -> BS<ItemSpec> {
     let plain = (
         prop_oneof![6 => 1u8..=7, 1 => 9u8..=255],
         text(byte_len(255, inv)),
-        prop_oneof![5 => Just(Vec::new()), 1 => vec(any::<u8>(), 0..6)],
+        // a prefix set on a non-PRIV item has no effect, however long it is
+        prop_oneof![10 => Just(Vec::new()), 2 => vec(any::<u8>(), 0..6), 1 => select(vec![253usize, 254, 255, 256, 300]).prop_flat_map(|n| vec(any::<u8>(), n))],
     )
         .prop_map(|(ty, value, prefix)| ItemSpec { ty, prefix, value });
     // PRIV: prefix + value <= 254
